@@ -1468,6 +1468,16 @@ static gboolean priv_conn_keepalive_tick_unlocked (NiceAgent *agent)
                   p->stun_priority);
             }
 
+            /* A keepalive check is sent once and not tracked: if its answer
+             * was lost, its transaction would stay in the STUN agent for
+             * ever and the table of outstanding transactions would fill up
+             * over the life of the component. */
+            if (p->keepalive.has_transaction) {
+              stun_agent_forget_transaction (&component->stun_agent,
+                  p->keepalive.transaction_id);
+              p->keepalive.has_transaction = FALSE;
+            }
+
             buf_len = stun_usage_ice_conncheck_create (&component->stun_agent,
                 &stun_message, stun_buffer, sizeof(stun_buffer),
                 uname, uname_len, password, password_len,
@@ -1481,6 +1491,9 @@ static gboolean priv_conn_keepalive_tick_unlocked (NiceAgent *agent)
                 agent, buf_len, stun_message.buffer);
 
             if (buf_len > 0) {
+              stun_message_id (&stun_message, p->keepalive.transaction_id);
+              p->keepalive.has_transaction = TRUE;
+
               /* random range over 0.8 -> 1.2 as specified in RFC7675 */
               double modifier = g_random_double() * 0.4 + 0.8;
               guint64 delay = 1000 * MAX((guint64) ((NICE_AGENT_TIMER_CONSENT_DEFAULT) * modifier),
